@@ -19,10 +19,10 @@ modelrun: coq/Makefile.coq
 	@if [ ! -x bin/modelrun ] || [ coq/model/Run.vo -nt bin/modelrun ] || [ ocaml/driver.ml -nt bin/modelrun ] \
 	    || [ coq/extract/Extract.v -nt bin/modelrun ]; then \
 	  mkdir -p build/ocaml bin && cd build/ocaml && rm -f modelrun_core.* && \
-	  timeout 600 coqc -R /verif/coq KV /verif/coq/extract/Extract.v > extract.log 2>&1 && \
-	  cp /verif/ocaml/driver.ml . && \
-	  timeout 600 ocamlfind ocamlopt -w -a modelrun_core.mli modelrun_core.ml driver.ml -o /verif/bin/modelrun.new && \
-	  mv /verif/bin/modelrun.new /verif/bin/modelrun ; \
+	  timeout 600 coqc -R $(CURDIR)/coq KV $(CURDIR)/coq/extract/Extract.v > extract.log 2>&1 && \
+	  cp $(CURDIR)/ocaml/driver.ml . && \
+	  timeout 600 ocamlfind ocamlopt -w -a modelrun_core.mli modelrun_core.ml driver.ml -o $(CURDIR)/bin/modelrun.new && \
+	  mv $(CURDIR)/bin/modelrun.new $(CURDIR)/bin/modelrun ; \
 	fi
 
 # no Admitted / Axiom / ... anywhere in the development
